@@ -2,8 +2,10 @@ package payment
 
 import (
 	"context"
+	"errors"
 	"fmt"
 	"math/big"
+	"time"
 
 	"github.com/vipnode/vipnode/v2/internal/verifapi"
 	"github.com/vipnode/vipnode/v2/internal/verifmodels/sigs"
@@ -172,5 +174,73 @@ func VerifC07Race() {
 	left := new(big.Int).Add(&after.Deposit, &after.Credit)
 	if oks > 0 {
 		verifapi.Assert(left.Sign() == 0, "c07.race-nothing-left")
+	}
+}
+
+// VerifC07RealProxy (REAL math/big code, concrete amounts): withdrawals
+// through the real contract-payment proxy and its deposit cache. A refused or
+// failed attempt leaves the balance as it was (also the cached deposit the
+// proxy hands out by value), and the next attempt pays exactly what is owed.
+func VerifC07RealProxy() {
+	db := newVerifStore()
+	wal := store.Account(verifapi.Wallet(0))
+	// the on-chain deposit as a number with spare capacity (as decoded from the contract)
+	deposit := new(big.Int).Add(big.NewInt(1000), big.NewInt(2000))
+	cp := &contractPayment{store: db}
+	cp.balanceCache.Getter = func(a store.Account) (*big.Int, error) { return deposit, nil }
+	paid := new(big.Int)
+	attempts := 0
+	failFirst := verifapi.Bool("firstsettlefails")
+	pay := &PaymentService{NonceStore: db, AccountStore: db, BalanceStore: cp,
+		WithdrawFee: func(amount *big.Int) *big.Int { return amount.Sub(amount, big.NewInt(100)) }} // production shape (pool.go)
+	minKind := verifapi.Choose("minimum", 3)
+	switch minKind {
+	case 1:
+		pay.WithdrawMin = big.NewInt(500) // met
+	case 2:
+		pay.WithdrawMin = big.NewInt(6000) // not met at first
+	}
+	pay.Settle = func(account store.Account, amount *big.Int, newBalance *big.Int) (string, error) {
+		attempts++
+		if attempts == 1 && failFirst {
+			return "", errors.New("settle failed")
+		}
+		paid.Add(paid, amount)
+		deposit = new(big.Int).Set(newBalance)
+		cp.balanceCache.Set(account, deposit) // the contract's balance event refreshes the cache
+		return "tx", nil
+	}
+	verifapi.SetNow(time.Unix(1600000000, 0))
+	db.AddAccountBalance(wal, big.NewInt(700))
+	db.AddAccountBalance(wal, big.NewInt(1300))
+	owed := int64(3000 + 2000)
+	read := func() int64 {
+		b, err := cp.GetAccountBalance(wal)
+		if err != nil {
+			verifapi.Unreachable("c07.proxy-read")
+		}
+		return new(big.Int).Add(&b.Deposit, &b.Credit).Int64()
+	}
+	verifapi.Assert(read() == owed, "c07.proxy-initial-balance")
+	w := &verifPayWorld{db: db, pay: pay}
+	err1 := w.withdraw(wal, true)
+	if err1 != nil {
+		verifapi.Assert(paid.Sign() == 0, "c07.proxy-failed-attempt-pays-nothing")
+		verifapi.Assert(read() == owed, "c07.proxy-failed-attempt-leaves-balance")
+		if minKind == 2 {
+			// still below the minimum: refused again, still unchanged
+			err2 := w.withdraw(wal, true)
+			verifapi.Assert(err2 != nil && paid.Sign() == 0 && read() == owed, "c07.proxy-refused-again-unchanged")
+			verifapi.Reach("c07.proxy")
+			return
+		}
+		// the retry pays exactly what is owed minus the fee
+		err2 := w.withdraw(wal, true)
+		verifapi.Assert(err2 == nil, "c07.proxy-retry-succeeds")
+	}
+	verifapi.Reach("c07.proxy")
+	if minKind != 2 {
+		verifapi.Assert(paid.Int64() == owed-100, "c07.proxy-pays-balance-minus-fee-once")
+		verifapi.Assert(read() == 0, "c07.proxy-nothing-left")
 	}
 }
